@@ -92,6 +92,8 @@ def cases(draw):
         c["shape"] = shape
         c["data"] = [draw(_data(shape)) for _ in range(n)]
         c["axis"] = draw(st.integers(0, len(shape) - 1)) if n == 1 else None
+        # missing values: one element of one argument is NaN (float dtypes only)
+        c["nan"] = [draw(st.integers(0, n - 1)), draw(st.integers(0, 63))] if (c["dtype"] in ("float64", "float32") and draw(st.integers(0, 5)) == 0) else None
     elif kind == "binary":
         c["op"] = draw(st.sampled_from(BINARY))
         shape = draw(shapes)
@@ -226,10 +228,33 @@ def run_case(c) -> tuple[bool, list[str]]:
     if kind == "multi":
         op = c["op"]
         arrs = [_mk(d, shape, dt, fl) for d in c["data"]]
+        if c.get("nan"):
+            ai, pos = c["nan"]
+            base = np.asarray(c["data"][ai], dtype="int64").reshape(shape).astype(dt)
+            flat = base.reshape(-1)
+            if flat.size:
+                flat[pos % flat.size] = np.nan
+                nan_arr = flat.reshape(shape)
+                arrs[ai] = nan_arr if fl == "np" else (__import__("xarray").DataArray(nan_arr, dims=DIMS[: len(shape)]) if fl == "da" else
+                                                       __import__("xarray").Dataset({"v": __import__("xarray").DataArray(nan_arr, dims=DIMS[: len(shape)])}))
+                classes.append("nan_input")
         raws = [_raw(a) for a in arrs]
         f = getattr(backends, op)
         npf = getattr(np, op)
         approx = op in ("mean", "std", "var")
+        if "nan_input" in classes and fl != "np":
+            # known finding F32 (if listed): xarray reductions skip NaN by default, NumPy and the array-API backend propagate it
+            try:
+                if len(arrs) == 1:
+                    kw = {"dim": DIMS[c["axis"]]}
+                    _differential(what, lambda: f(arrs[0], **kw), lambda: npf(raws[0], axis=c["axis"]), approx)
+                else:
+                    _differential(what, lambda: f(*arrs), lambda: npf(np.stack(raws), axis=0), approx)
+            except Violation as v:
+                if v.clause == "value" and _STATS[0] is not None and common.known(_STATS[0], PROPERTY, "F32"):
+                    return False, classes + ["known_F32"]
+                raise
+            return True, classes + ["agree"]
         if len(arrs) == 1:
             ax = c["axis"]
             kw = {"axis": ax} if fl == "np" else {"dim": DIMS[ax]}
@@ -319,8 +344,12 @@ def run_case(c) -> tuple[bool, list[str]]:
     return nt, classes
 
 
+_STATS: list = [None]
+
+
 def shard(seed: int, cases_n: int, tier: str) -> Stats:
     st_ = Stats()
+    _STATS[0] = st_
     names = batchable_names()
     st_.extra["batchable_functions_enumerated"] = names
     for bad in ("mean", "std"):
@@ -333,6 +362,7 @@ def shard(seed: int, cases_n: int, tier: str) -> Stats:
 
 
 def replay(case) -> None:
+    _STATS[0] = Stats()
     if "marker" in case:
         if case["marker"] in batchable_names():
             raise Violation(f"{case['marker']} carries the batchable marker", "marker")
